@@ -262,6 +262,9 @@ def run_assert(case):
         if case['entry'] != 'string':
             with open(actpath, 'w', encoding='utf-8', newline='') as f:
                 f.write(case['actual'])
+        priorref = os.path.join(root, 'ref', 'prior.txt')
+        with open(priorref, 'w') as f:
+            f.write('took 345 ms\n')
         if case['entry'] != 'string' and os.path.getsize(actpath) == os.path.getsize(refpath):
             # same size, same modification time (files unpacked from an archive): still two different files
             for p_ in (actpath, refpath):
@@ -273,8 +276,21 @@ def run_assert(case):
             res['passed'] = bool(ok)
             res['message'] = msg
 
-        class R(_Ref):
-            tmp_dir = os.path.join(root, 'tmp')
+        by_call = case.get('tmp_by_set_defaults', (len(case['actual']) + 2 * len(case['expected'])) % 5 == 2)
+        saved_base = {k: ReferenceTest.__dict__[k] for k in ('tmp_dir', 'verbose', 'print_fn') if k in ReferenceTest.__dict__}
+        if by_call:
+            # configured through set_defaults, next to another test class configured with another directory
+            class R(_Ref):
+                pass
+
+            class R2(_Ref):
+                pass
+            R.set_defaults(tmp_dir=os.path.join(root, 'tmp'))
+            os.makedirs(os.path.join(root, 'other'), exist_ok=True)
+            R2.set_defaults(tmp_dir=os.path.join(root, 'other'))
+        else:
+            class R(_Ref):
+                tmp_dir = os.path.join(root, 'tmp')
         R.regenerate = {}
         # the environment names another directory for failures: the explicitly configured one takes precedence
         saved_env = os.environ.get('TDDA_FAIL_DIR')
@@ -284,6 +300,14 @@ def run_assert(case):
         r = R(assert_fn)
         os.makedirs(os.path.join(root, 'tmp'), exist_ok=True)
         kw = kw_of(case['opts'])
+        if kw.get('ignore_patterns') and case.get('prior_call', len(case['actual']) % 2 == 0):
+            # the same test object was used before, with the same list object holding other patterns (a suite that edits
+            # one list in place between assertions)
+            pl = [r'\d+']
+            r.assertStringCorrect('took 12 ms\n', priorref, ignore_patterns=pl)
+            pl[:] = kw['ignore_patterns']
+            kw['ignore_patterns'] = pl
+            res.clear()
         exc = None
         try:
             if case['entry'] == 'string':
@@ -299,6 +323,9 @@ def run_assert(case):
                 os.environ.pop('TDDA_FAIL_DIR', None)
             else:
                 os.environ['TDDA_FAIL_DIR'] = saved_env
+            for k, v in saved_base.items():          # (whatever a changed set_defaults did to the base class)
+                if ReferenceTest.__dict__.get(k) is not v:
+                    setattr(ReferenceTest, k, v)
         after = snapshot(root)
         return {'passed': res.get('passed'), 'message': res.get('message'), 'exc': exc,
                 'before': before, 'after': after, 'root': root, 'refpath': refpath, 'actpath': actpath}
